@@ -266,6 +266,8 @@ BUILTIN_RW = [
     (r'\b(u16|u32|u64|u128|f32|f64)::from_le_bytes\(', r'shim_\1_from_le_bytes(', None),
     (r'\b(u16|u32|u64)::to_le_bytes\(', r'shim_\1_to_le_bytes(', None),
     (r'\.to_le_bytes\(\)', r'.to_le_bytes_shim()', None),
+    # zeroed byte buffers of the reader: allocation goes through a shim whose precondition is the C09 allocation bound
+    (r'\bvec!\[0_u8;\s*([^\]]+)\]', r'shim_vec_u8_zeros(\1)', None),
 ]
 
 
